@@ -526,12 +526,97 @@ def sdp_corpus(handle: int) -> list[Pdu]:
     ]
 
 
-def sdp_deep_frames(rng: random.Random, max_bytes: int):
-    """Deep-nesting frames (up to depth 2000 when the byte budget allows)."""
+SDP_SIBLINGS = {       # small complete data elements used as siblings of a nested list
+    'uint8': b'\x08\x00', 'uuid16': b'\x19\x11\x01', 'nil': b'\x00', 'bool': b'\x28\x01', 'text': b'\x25\x02hi',
+    'empty-seq': b'\x35\x00', 'empty-alt': b'\x3D\x00', 'seq-of-one': b'\x35\x02\x08\x00',
+}
+_SIB_CYCLE = ('uint8', 'empty-seq', 'uuid16', 'seq-of-one', 'text', 'empty-alt', 'bool', 'nil')
+
+
+def sdp_nest_shape(depth: int, before: int = 0, after: int = 0, kind: str = 'seq', sib: str = 'uint8',
+                   idx: int | None = None, innermost: bytes = b'\x35\x00') -> bytes:
+    """`depth` lists inside each other with honest sizes; at every level `before` sibling elements
+    precede and `after` sibling elements follow the nested list:
+        SEQ{ s, s, SEQ{ s, s, SEQ{ ... } s } s }
+    kind: 'seq' | 'alt' (outermost a sequence, alternatives inside) | 'alternating' (SEQ, ALT, SEQ, ...
+    counted from the outside). sib: a key of SDP_SIBLINGS or 'mix' (another sibling type at every level).
+    idx: size index of every header (5: 1 byte, 6: 2 bytes, 7: 4 bytes); None = the smallest that fits."""
+    # built from the lengths (integers) first, then joined once: O(size), not O(depth x size)
+    heads, tails = [], []
+    size = len(innermost)
+    for level in range(depth):
+        from_outside = depth - 1 - level
+        if kind == 'seq' or from_outside == 0:
+            t = 6
+        elif kind == 'alt':
+            t = 7
+        else:
+            t = 6 if from_outside % 2 == 0 else 7
+        s = SDP_SIBLINGS[_SIB_CYCLE[level % len(_SIB_CYCLE)] if sib == 'mix' else sib]
+        size += len(s) * (before + after)
+        use = idx
+        if use is not None and size >= 1 << (8 * {5: 1, 6: 2, 7: 4}[use]):
+            use = None
+        hdr = de_hdr(t, size, use)
+        heads.append(hdr + s * before)
+        tails.append(s * after)
+        size += len(hdr)
+    return b''.join(reversed(heads)) + innermost + b''.join(tails)
+
+
+SDP_NEST_SHAPES = ((1, 0), (0, 1), (1, 1), (2, 0), (0, 2), (3, 0), (0, 3), (2, 1), (3, 3))
+SDP_NEST_DEPTHS = (30, 33, 64, 200, 700, 1000, 2000)
+SDP_NEST_KINDS = ('seq', 'alt', 'alternating')
+SDP_NEST_SIBS = ('uint8', 'empty-seq', 'uuid16', 'mix')
+
+
+def sdp_shaped_specs():
+    """[(name, args of sdp_nest_shape, running index)] for every (siblings before/after, kind, sibling type, depth)."""
     out = []
-    wraps = ((0x02, lambda n: n + be16(5) + b'\x00'),
-             (0x06, lambda n: n + be16(100) + de_seq(de_uint32(0xFFFF)) + b'\x00'),
-             (0x04, lambda n: struct.pack('>I', 0x10001) + be16(100) + n + b'\x00'))
+    i = 0
+    for si, (before, after) in enumerate(SDP_NEST_SHAPES):
+        for kind in SDP_NEST_KINDS:
+            for sib in SDP_NEST_SIBS:
+                for di, depth in enumerate(SDP_NEST_DEPTHS):
+                    i += 1
+                    idx = (None, 6, 7)[(si + di) % 3]
+                    out.append((f'{kind}-{depth}-b{before}a{after}-{sib}', (depth, before, after, kind, sib, idx), si + di + i))
+    return out
+
+
+def sdp_shaped_nests(max_bytes: int, specs=None):
+    """[(name, nest bytes, running index)] for the given (default: all) specs that fit in max_bytes."""
+    out = []
+    for name, args, i in (sdp_shaped_specs() if specs is None else specs):
+        nest = sdp_nest_shape(*args)
+        if len(nest) + 24 <= max_bytes:
+            out.append((name, nest, i))
+    return out
+
+
+_SDP_REQUEST_WRAPS = ((0x02, lambda n: n + be16(5) + b'\x00'),
+                      (0x06, lambda n: n + be16(100) + de_seq(de_uint32(0xFFFF)) + b'\x00'),
+                      (0x04, lambda n: struct.pack('>I', 0x10001) + be16(100) + n + b'\x00'),
+                      # the nest as the AttributeIDList of a ServiceSearchAttributeRequest (second parsed element)
+                      (0x06, lambda n: de_seq(de_uuid16(0x1101)) + be16(100) + n + b'\x00'))
+
+
+def sdp_deep_sibling_frames(max_bytes: int, specs=None):
+    out = []
+    for name, nest, i in sdp_shaped_nests(max_bytes, specs):
+        pid, wrap = _SDP_REQUEST_WRAPS[i % len(_SDP_REQUEST_WRAPS)]
+        out.append(('deep-nesting-siblings', f'sdp/nest-{name}-pdu{pid}', sdp_pdu(pid, 9, wrap(nest))))
+    return out
+
+
+def sdp_deep_frames(rng: random.Random, max_bytes: int, siblings: bool = True, sibling_bytes: int | None = None):
+    """Deep-nesting frames (up to depth 2000 when the byte budget allows): pure nesting (class
+    'deep-nesting') and nesting with 1-3 siblings before / after the nested list at every level
+    (class 'deep-nesting-siblings')."""
+    out = []
+    if siblings:
+        out += sdp_deep_sibling_frames(max_bytes * 2 if sibling_bytes is None else sibling_bytes)
+    wraps = _SDP_REQUEST_WRAPS[:3]
     for depth in (31, 32, 33, 64, 127, 400, 1000, 2000):
         for idx, honest in ((5, False), (6, True), (6, False), (7, True), (7, False), (5, True)):
             per = {5: 2, 6: 3, 7: 5}[idx]
@@ -731,7 +816,7 @@ def at_hostile_text(rng: random.Random, base: str) -> tuple[str, bytes]:
                     'quote-after-token', 'paren-after-token', 'huge-token', 'huge-line', 'non-ascii', 'nul-bytes',
                     'only-prefix', 'no-plus', 'lowercase', 'empty-params', 'many-commas', 'nested-parens', 'random-text',
                     'colon-storm', 'equals-storm', 'non-numeric', 'negative', 'huge-number', 'valid', 'valid',
-                    'embedded-cr', 'embedded-lf', 'spaces'])
+                    'embedded-cr', 'embedded-lf', 'spaces', 'nested-parens-siblings'])
     b = base.encode()
     if k == 'missing-close-quote':
         t = b + b',"unterminated'
@@ -766,6 +851,12 @@ def at_hostile_text(rng: random.Random, base: str) -> tuple[str, bytes]:
     elif k == 'nested-parens':
         n = rng.choice([2, 50, 3000])
         t = b + b',' + b'(' * n + b'1' + b')' * rng.choice([n, n - 1, 0])
+    elif k == 'nested-parens-siblings':
+        # (1,(1,(1,( ... ),2),2),2): 1-3 siblings before / after the nested list at every level
+        n = rng.choice([3, 40, 700, 3000])
+        bef = b'1,' * rng.choice([0, 1, 1, 3])
+        aft = b',2' * rng.choice([0, 1, 3])
+        t = b + b',' + (b'(' + bef) * n + b'0' + (aft + b')') * rng.choice([n, n, n - 1])
     elif k == 'random-text':
         t = bytes(rng.choice(b'AT+BRSFCINDOK:=?,()"0123456789 ;-x') for _ in range(rng.randint(1, 60)))
     elif k == 'colon-storm':
@@ -1136,4 +1227,150 @@ def hci_data_corpus(handle: int, att_read: bytes) -> list[Pdu]:
         Pdu('h4/only-type-acl', b'\x02'),
         Pdu('h4/empty', b''),
     ]
+    return out
+
+
+# =============================================================================
+# SDP responses as an SDP *client* sees them (Core Vol 3 Part B 4.4-4.7)
+# =============================================================================
+SDP_TID_PLACEHOLDER = b'\x5A\x5A'      # replaced by the transaction ID of the outstanding request when sent
+SDP_TID_PLACEHOLDER_SPLIT = b'\x5A\x5B'    # same, and the AttributeList(s) are served over several continuation responses
+
+
+def sdp_record_attribute_list(handle: int) -> bytes:
+    """AttributeList of one record: {0x0000: uint32 handle, 0x0001: SEQ{UUID 0x1101}}."""
+    return de_seq(de_uint16(0x0000) + de_uint32(handle) + de_uint16(0x0001) + de_seq(de_uuid16(0x1101)))
+
+
+def sdp_search_rsp(tid: bytes, handles, cont=b'\x00') -> bytes:
+    body = be16(len(handles)) + be16(len(handles)) + b''.join(struct.pack('>I', h) for h in handles) + cont
+    return b'\x03' + tid + be16(len(body)) + body
+
+
+def sdp_attribute_rsp(tid: bytes, attribute_list: bytes, cont=b'\x00') -> bytes:
+    body = be16(len(attribute_list)) + attribute_list + cont
+    return b'\x05' + tid + be16(len(body)) + body
+
+
+def sdp_search_attribute_rsp(tid: bytes, attribute_lists: bytes, cont=b'\x00') -> bytes:
+    body = be16(len(attribute_lists)) + attribute_lists + cont
+    return b'\x07' + tid + be16(len(body)) + body
+
+
+def sdp_client_corpus(handle: int) -> list[Pdu]:
+    T = SDP_TID_PLACEHOLDER
+    one = sdp_record_attribute_list(handle)
+    plen, blen = (3, 2, 'be'), (5, 2, 'be')
+    return [
+        Pdu('sdpc/error-rsp', b'\x01' + T + be16(2) + be16(3), (plen,)),
+        Pdu('sdpc/error-rsp-bad-code', b'\x01' + T + be16(2) + be16(0x7777), (plen,)),
+        Pdu('sdpc/search-rsp', sdp_search_rsp(T, [handle]), (plen, (5, 2, 'be'), (7, 2, 'be'))),
+        Pdu('sdpc/search-rsp-none', sdp_search_rsp(T, []), (plen, (5, 2, 'be'), (7, 2, 'be'))),
+        Pdu('sdpc/search-rsp-cont', sdp_search_rsp(T, [handle, handle + 1], cont=b'\x02\x01\x00'), (plen, (7, 2, 'be'), (17, 1, 'be'))),
+        Pdu('sdpc/attribute-rsp', sdp_attribute_rsp(T, one), (plen, blen, (8, 1, 'be'))),
+        Pdu('sdpc/attribute-rsp-empty-list', sdp_attribute_rsp(T, de_seq(b'')), (plen, blen)),
+        Pdu('sdpc/attribute-rsp-zero-bytes', sdp_attribute_rsp(T, b''), (plen, blen)),
+        Pdu('sdpc/attribute-rsp-cont', sdp_attribute_rsp(T, one[:7], cont=b'\x02\x01\x00'), (plen, blen)),
+        Pdu('sdpc/attribute-rsp-odd-count', sdp_attribute_rsp(T, de_seq(de_uint16(0) + de_uint32(handle) + de_uint16(1))), (plen, blen)),
+        Pdu('sdpc/attribute-rsp-id-not-int', sdp_attribute_rsp(T, de_seq(b'\x25\x02id' + de_uint32(handle))), (plen, blen)),
+        Pdu('sdpc/attribute-rsp-not-seq', sdp_attribute_rsp(T, de_uint32(handle)), (plen, blen)),
+        Pdu('sdpc/search-attribute-rsp', sdp_search_attribute_rsp(T, de_seq(one)), (plen, blen, (8, 1, 'be'), (10, 1, 'be'))),
+        Pdu('sdpc/search-attribute-rsp-two', sdp_search_attribute_rsp(T, de_seq(one + one)), (plen, blen, (8, 1, 'be'))),
+        Pdu('sdpc/search-attribute-rsp-none', sdp_search_attribute_rsp(T, de_seq(b'')), (plen, blen)),
+        Pdu('sdpc/search-attribute-rsp-zero-bytes', sdp_search_attribute_rsp(T, b''), (plen, blen)),
+        Pdu('sdpc/search-attribute-rsp-cont', sdp_search_attribute_rsp(T, de_seq(one)[:9], cont=b'\x02\x01\x00'), (plen, blen)),
+        Pdu('sdpc/search-attribute-rsp-cont-16', sdp_search_attribute_rsp(T, de_seq(one)[:3], cont=b'\x10' + bytes(16)), (plen, blen)),
+        Pdu('sdpc/search-attribute-rsp-cont-17', sdp_search_attribute_rsp(T, de_seq(one)[:3], cont=b'\x11' + bytes(17)), (plen, blen)),
+        Pdu('sdpc/search-attribute-rsp-inner-not-seq', sdp_search_attribute_rsp(T, de_seq(de_uint16(0) + de_uint32(handle))), (plen, blen)),
+        Pdu('sdpc/search-attribute-rsp-alt', sdp_search_attribute_rsp(T, de_hdr(7, len(one)) + one), (plen, blen)),
+        Pdu('sdpc/search-attribute-rsp-url-bad-utf8', sdp_search_attribute_rsp(T, de_seq(de_seq(de_uint16(9) + b'\x45\x03\xff\xfe\xc3'))), (plen, blen)),
+        Pdu('sdpc/search-attribute-rsp-size-index-7', sdp_search_attribute_rsp(T, b'\x37\xff\xff\xff\xff' + one), (plen, blen)),
+        Pdu('sdpc/request-as-response', b'\x06' + T + be16(13) + de_seq(de_uuid16(0x1101)) + be16(100) + de_seq(de_uint32(0xFFFF)) + b'\x00', (plen,)),
+        Pdu('sdpc/wrong-tid', sdp_search_attribute_rsp(b'\x13\x37', de_seq(one)), (plen, blen)),
+        Pdu('sdpc/unknown-pdu', b'\x09' + T + be16(1) + b'\x00', (plen,)),
+        Pdu('sdpc/header-only', b'\x07' + T),
+    ]
+
+
+def sdp_deep_responses(max_bytes: int, specs=None):
+    """[(class, name, response bytes)]: deep nesting inside the AttributeList(s) of a response (the driver sets
+    the PDU ID to the one the outstanding request expects). 'deep-nesting-split' ones are served over several
+    continuation responses."""
+    out = []
+    T = SDP_TID_PLACEHOLDER
+    n = 0
+    for name, nest, i in sdp_shaped_nests(max_bytes, specs):
+        n = i
+        klass = 'deep-nesting-siblings' if n % 4 else 'deep-nesting-split'
+        out.append((klass, f'sdpc/nest-{name}', sdp_search_attribute_rsp(T if n % 4 else SDP_TID_PLACEHOLDER_SPLIT, nest)))
+    if specs is not None:
+        return out
+    for depth in (31, 32, 33, 64, 400, 1000, 2000):
+        for idx, honest in ((6, True), (6, False), (7, True), (5, False)):
+            for kind in ('seq', 'alt', 'mixed'):
+                nest = sdp_nested(depth, idx, honest, kind=kind)
+                if len(nest) + 24 > max_bytes:
+                    continue
+                n += 1
+                out.append(('deep-nesting' if n % 4 else 'deep-nesting-split',
+                            f'sdpc/nest-{kind}-{depth}-idx{idx}-{"honest" if honest else "lying"}',
+                            sdp_search_attribute_rsp(T if n % 4 else SDP_TID_PLACEHOLDER_SPLIT, nest)))
+    return out
+
+
+# =============================================================================
+# HCI command flow control (Core Vol 4 Part E 4.4, 7.7.14, 7.7.15)
+# =============================================================================
+def hci_nop_command_complete(num: int) -> bytes:
+    """Command Complete for opcode 0x0000: carries only Num_HCI_Command_Packets."""
+    return hci_event(0x0E, bytes([num & 0xFF]) + u16(0))
+
+
+def hci_nop_command_status(num: int) -> bytes:
+    """Command Status with Status 0x00 and opcode 0x0000: carries only Num_HCI_Command_Packets."""
+    return hci_event(0x0F, bytes([0x00, num & 0xFF]) + u16(0))
+
+
+def hci_set_num_command_packets(packet: bytes, num: int) -> bytes | None:
+    """The same Command Complete / Command Status event with another Num_HCI_Command_Packets; None for other packets."""
+    if len(packet) >= 6 and packet[0] == 0x04 and packet[1] == 0x0E:
+        return packet[:3] + bytes([num]) + packet[4:]
+    if len(packet) >= 7 and packet[0] == 0x04 and packet[1] == 0x0F:
+        return packet[:4] + bytes([num]) + packet[5:]
+    return None
+
+
+# events a controller may send at any time and that have no bearing on command flow control
+def hci_neutral_events(handle: int) -> list[bytes]:
+    return [
+        hci_event(0xFF, b'\x55\x01\x02\x03'),                       # vendor specific
+        hci_event(0x1B, u16(handle) + b'\x05'),                     # Max Slots Change
+        hci_event(0x13, b'\x01' + u16(handle) + u16(0)),            # Number Of Completed Packets: 0 for the live handle
+        le_meta(0x7C, b'\x01\x02\x03'),                             # LE meta event with an unknown subevent
+        hci_event(0x38, u16(handle) + u16(0x2000)),                 # Link Supervision Timeout Changed
+    ]
+
+
+# =============================================================================
+# L2CAP configuration options (Core Vol 3 Part A 5) for refusal dialogues
+# =============================================================================
+def conf_refusable_options() -> list[tuple[str, str, bytes]]:
+    """(class, name, option bytes) of options a responder may legitimately refuse or ignore.
+    class: unknown-option (type bit 7 clear: must be refused when not understood), hint-option (bit 7 set:
+    must be skipped when not understood), unimplemented-option (defined by the specification, optional)."""
+    out = [
+        ('unimplemented-option', 'flush-timeout', conf_opt(0x02, u16(0xFFFF))),
+        ('unimplemented-option', 'flush-timeout-100', conf_opt(0x02, u16(100))),
+        ('unimplemented-option', 'qos-best-effort', conf_opt(0x03, bytes([0, 1]) + b'\x00\x00\x00\x00' + b'\x00\x00\x00\x00' +
+                                                             b'\x00\x00\x00\x00' + b'\xff\xff\xff\xff' + b'\xff\xff\xff\xff')),
+        ('unimplemented-option', 'qos-guaranteed', conf_opt(0x03, bytes([0, 2]) + struct.pack('<IIIII', 1000, 100, 2000, 10000, 5000))),
+        ('unimplemented-option', 'extended-flow-spec', conf_opt(0x06, bytes([1, 1]) + u16(672) + struct.pack('<III', 0xFFFFFFFF, 0xFFFFFFFF, 0xFFFFFFFF))),
+        ('unimplemented-option', 'extended-window-size', conf_opt(0x07, u16(63))),
+    ]
+    for t in (0x00, 0x08, 0x09, 0x10, 0x3F, 0x55, 0x7E, 0x7F):
+        for v in (b'', b'\x01', b'\x01\x02', bytes(16)):
+            out.append(('unknown-option', f'type-{t:#04x}-len{len(v)}', conf_opt(t, v)))
+    for t in (0x80, 0x82, 0x83, 0x86, 0x87, 0x88, 0x90, 0xD5, 0xFE, 0xFF):
+        for v in (b'', b'\x01\x02', bytes(22)):
+            out.append(('hint-option', f'type-{t:#04x}-len{len(v)}', conf_opt(t, v)))
     return out
